@@ -391,7 +391,12 @@ def rewrite_tokens(src, modpath, report):
                     if e < 0:
                         raise GenError('R5: collect pattern partially matched')
                     last = prev_code(toks, e)
-                    edits.append((toks[rs].start, toks[last].end, 'string_set(%s)' % recv))
+                    r2 = re.sub(r'\s+', '', recv)
+                    if r2.endswith('.clone()'):
+                        # the set of strings of a clone is the set of strings of the original
+                        edits.append((toks[rs].start, toks[last].end, 'string_set_ref(&%s)' % r2[:-len('.clone()')]))
+                    else:
+                        edits.append((toks[rs].start, toks[last].end, 'string_set(%s)' % recv))
                     bump('R5')
                     k = e
                     continue
@@ -552,6 +557,8 @@ def scan_items(toks, modpath):
                 depth += 1
             elif tq.kind == 'punct' and tq.text in ')]}>':
                 depth -= 1
+            elif tq.kind == 'punct' and tq.text == '>>':
+                depth -= 2
             if tq.kind == 'punct' and tq.text == ',' and depth == 0:
                 parts.append(cur)
                 cur = []
@@ -638,7 +645,7 @@ def scan_items(toks, modpath):
                     owner, trait_impl = htxt, None
                 elif 'for' in h:
                     q = h.index('for')
-                    owner = '<%s for %s>' % (''.join(h[:q]), ''.join(h[q + 1:]))
+                    owner = '<%s:%s>' % (''.join(h[:q]), ''.join(h[q + 1:]))
                     trait_impl = ''.join(h[:q])
                 else:
                     owner, trait_impl = htxt, None
